@@ -120,7 +120,7 @@ class Run:
     def validate(self, family, trace, spec, chunk=20000, xmx="3g", jobs=16, prefix=None, label=None, env=None, timeout=3600, group_on=None):
         """Split `trace` in chunks, run the trace specification on each (parallel JVMs), collect every
         failing event.  Only clauses starting with `prefix` (the property id) count."""
-        prefix = prefix or self.prop
+        prefix = self.prop if prefix is None else prefix
         # stream the trace into chunk files (traces can be several GB in the thorough tier)
         chunks, total = [], 0
         marker = ('"ev":"%s"' % group_on) if group_on else None
